@@ -12,7 +12,7 @@ from typing import Dict, FrozenSet, List, Optional, Set, Tuple
 
 from ..core import astq
 from ..core.cfg import CFG, Node
-from ..core.program import AnalysisError, FunctionInfo, Program, ancestors, norm, short, walk_function
+from ..core.program import enclosing_stmt, AnalysisError, FunctionInfo, Program, ancestors, norm, short, walk_function
 from ..engines.schema import Schema, path_of
 from ..report import Result
 from ..runner import Variant
@@ -348,7 +348,19 @@ def check_final(prog: Program, res: Result) -> None:
                "chunk deletion is not inside the finally of train() under the delete_chunks_after_training flag",
                f"{fi.module.relpath}:{c.lineno}")
     want = {"self.train_np_chunks_path", "self.val_np_chunks_path", "self.train_litdata_chunks_path", "self.val_litdata_chunks_path"}
-    got = {w for w in want for c in rms if w in norm(c)}
+
+    def _targets(c: ast.Call) -> Set[str]:
+        """The directories a rmtree call may remove: its path argument, with a loop variable ranging over a literal
+        tuple/list of paths replaced by each of them."""
+        arg = astq.call_arg(c, 0, "path")
+        texts = [norm(astq.expand_at(fn, arg, enclosing_stmt(c)))] if arg is not None else []
+        for lp in astq.enclosing_loops(c):
+            if isinstance(lp, ast.For) and isinstance(lp.target, ast.Name) and isinstance(lp.iter, (ast.Tuple, ast.List)) and arg is not None and lp.target.id in astq.names_in(arg):
+                texts = [norm(astq.expand_at(fn, e, lp)) for e in lp.iter.elts]
+        return {w for w in want for t in texts if w in t}
+
+    tg = {id(c): _targets(c) for c in rms}
+    got = set().union(*tg.values()) if tg else set()
     res.ob("C19-delete", got == want, fi.qualname, "train and val chunk dirs of both chunk frameworks are removed",
            f"chunk directories never deleted: {sorted(want - got)}", fi.where)
     # guards pair the framework with its own directories
@@ -356,11 +368,11 @@ def check_final(prog: Program, res: Result) -> None:
         guards = [a for a in ancestors(c) if isinstance(a, ast.If) and "data_pipeline_fw" in norm(a.test)]
         if guards:
             fw = "litdata" if "litdata" in norm(guards[-1].test) else ("np_chunks" if "np_chunks" in norm(guards[-1].test) else "?")
-            ok = (fw == "litdata") == ("litdata" in norm(c))
+            ok = bool(tg[id(c)]) and all((fw == "litdata") == ("litdata" in t) for t in tg[id(c)])
             res.ob("C19-delete", ok, fi.qualname, f"deletion under the guard of its own framework: {short(c, 50)}",
                    f"directory removed under the guard of the other data framework ({short(guards[-1].test, 60)})",
                    f"{fi.module.relpath}:{c.lineno}")
-    res.floor("C19-delete", 5)
+    res.floor("C19-delete", 3)
 
 
 def check_initial(prog: Program, res: Result) -> None:
